@@ -63,6 +63,8 @@ type Engine struct {
 	PathFeasMs  int
 	Log         func(string)
 	Merged      map[string]int
+	ModelHits   int
+	ForkSites   map[string]int
 }
 
 func NewEngine(prog *ssa.Program, cfg Config) *Engine {
@@ -84,7 +86,7 @@ func NewEngine(prog *ssa.Program, cfg Config) *Engine {
 	return &Engine{Prog: prog, Cfg: cfg, Covers: map[string]int{}, CoverModels: map[string]*Scenario{},
 		Paths: map[string]int{}, FnsExecuted: map[string]int{}, IntrUsed: map[string]int{}, Unsupp: map[string]int{},
 		Overflow: map[string]int{}, PanicSites: map[string]int{}, fnInfos: map[*ssa.Function]*fnInfo{},
-		globals: map[*ssa.Global]int{}, Bounds: map[string]int{}, Merged: map[string]int{}}
+		globals: map[*ssa.Global]int{}, Bounds: map[string]int{}, Merged: map[string]int{}, ForkSites: map[string]int{}}
 }
 
 func (e *Engine) logf(format string, a ...interface{}) {
@@ -120,7 +122,7 @@ func (e *Engine) globalObj(g *ssa.Global) int {
 // ---------- running
 
 func (e *Engine) NewState() *State {
-	return &State{own: map[int]Value{}, W: newWorld(), InitDone: map[*ssa.Package]bool{}}
+	return &State{own: map[int]Value{}, W: newWorld(), InitDone: map[*ssa.Package]bool{}, model: &CachedModel{vals: map[int]MVal{}}}
 }
 
 // RunHarness explores all paths of fn (no params) from state st with a pool of workers.
@@ -397,13 +399,13 @@ func (e *Engine) unwindInit(s *State, why string) bool {
 // ---------- frames and calls
 
 func (e *Engine) pushFrame(s *State, fn *ssa.Function, args []Value, bind []Value, retTo ssa.Value) *Frame {
+	// Build() is idempotent and blocks until the package's functions are complete (another worker may
+	// be building it right now: never look at fn.Blocks before)
+	if fn.Pkg != nil {
+		fn.Pkg.Build()
+	}
 	if fn.Blocks == nil {
-		if fn.Pkg != nil {
-			fn.Pkg.Build()
-		}
-		if fn.Blocks == nil {
-			throwf("no body: %s", fn.String())
-		}
+		throwf("no body: %s", fn.String())
 	}
 	if len(s.Frames) > 400 {
 		throwf("stack depth")
@@ -527,25 +529,49 @@ type Outcome struct {
 }
 
 func (e *Engine) feasible(s *State, c *Term) Verdict {
+	v, _ := e.feasibleM(s, c)
+	return v
+}
+
+// feasibleM decides whether pc && c is satisfiable and, if so, returns a model of the whole pc && c
+// when one is available (nil otherwise). A cached model that already satisfies c answers without a solver.
+func (e *Engine) feasibleM(s *State, c *Term) (Verdict, *CachedModel) {
 	if c == TTrue {
-		return Sat
+		return Sat, s.model
 	}
 	if c == TFalse {
-		return Unsat
+		return Unsat, nil
 	}
-	asserts := append(s.pcTerms(), c)
+	if s.model != nil && !NoModelReuse {
+		if v, ok := s.model.Eval(c); ok && *v.B {
+			e.mu.Lock()
+			e.ModelHits++
+			e.mu.Unlock()
+			return Sat, s.model
+		}
+	}
+	// the path condition is satisfiable (invariant of exploration), so only the constraints that share
+	// symbols with c can make pc && c unsatisfiable (constraint independence)
+	asserts := append(Slice(s.pcTerms(), c), c)
 	ms := e.Cfg.FeasMs
 	if s.mergeDepth > 0 && ms > 400 {
 		ms = 400
 	}
-	v, _, _ := s.pf.Check(asserts, ms, false)
+	want := s.model != nil && !NoModelReuse
+	v, m, syms, _ := s.pf.CheckSyms(asserts, ms, want)
 	if v == Unknown {
 		e.mu.Lock()
 		e.FeasUnknown++
 		e.mu.Unlock()
 	}
-	return v
+	if v == Sat && want && m != nil {
+		return v, NewCachedModel(s.model, m, syms)
+	}
+	return v, nil
 }
+
+// NoModelReuse disables answering feasibility questions from a cached model (diagnostics).
+var NoModelReuse = false
 
 // applyOutcomes continues s with the outcomes of the instruction `in` whose result value is res (may be nil).
 func (e *Engine) applyOutcomes(s *State, fr *Frame, res ssa.Value, outs []Outcome) []*State {
@@ -562,6 +588,7 @@ func (e *Engine) applyOutcomes(s *State, fr *Frame, res ssa.Value, outs []Outcom
 		}
 	}
 	var live []Outcome
+	var models []*CachedModel
 	for i, o := range outs {
 		if o.Cond == nil {
 			o.Cond = TTrue
@@ -569,13 +596,27 @@ func (e *Engine) applyOutcomes(s *State, fr *Frame, res ssa.Value, outs []Outcom
 		if o.Cond == TFalse {
 			continue
 		}
-		// the last remaining candidate needs no check if nothing else was feasible (pc is feasible)
+		// the last remaining candidate needs no check if nothing else was feasible (pc is feasible);
+		// a model for it is still looked for so that later questions can be answered from it
 		if i == len(outs)-1 && len(live) == 0 {
 			live = append(live, o)
+			if s.InitMode > 0 || o.Cond == TTrue {
+				models = append(models, s.model)
+			} else {
+				v, m := e.feasibleM(s, o.Cond)
+				if v == Unsat {
+					s.Status = Infeasible
+					s.Msg = "no feasible outcome"
+					return nil
+				}
+				models = append(models, m)
+			}
 			break
 		}
-		if e.feasible(s, o.Cond) != Unsat {
+		v, m := e.feasibleM(s, o.Cond)
+		if v != Unsat {
 			live = append(live, o)
+			models = append(models, m)
 		}
 	}
 	if len(live) == 0 {
@@ -610,9 +651,13 @@ func (e *Engine) applyOutcomes(s *State, fr *Frame, res ssa.Value, outs []Outcom
 	}
 	if len(live) == 1 {
 		// in place; careful: apply uses st.top() which must be fr
+		s.model = models[0]
 		e.applyGuard(s, func() { apply(s, live[0]) })
 		return nil
 	}
+	e.mu.Lock()
+	e.ForkSites[fmt.Sprintf("x%d %s", len(live), e.where(s))]++
+	e.mu.Unlock()
 	var succ []*State
 	for i, o := range live {
 		var ns *State
@@ -626,6 +671,7 @@ func (e *Engine) applyOutcomes(s *State, fr *Frame, res ssa.Value, outs []Outcom
 			e.mu.Unlock()
 		}
 		ns.Forks++
+		ns.model = models[i]
 		oo := o
 		e.applyGuard(ns, func() { apply(ns, oo) })
 		succ = append(succ, ns)
@@ -874,22 +920,25 @@ func (e *Engine) branch(s *State, fr *Frame, c *Term) []*State {
 	if s.InitMode > 0 {
 		throwf("symbolic branch during init")
 	}
-	vt := e.feasible(s, c)
+	vt, mt := e.feasibleM(s, c)
 	if vt == Unsat {
 		s.addPC(Not(c))
 		e.jump(s, fr, fr.Block.Succs[1])
 		return nil
 	}
-	vf := e.feasible(s, Not(c))
+	vf, mf := e.feasibleM(s, Not(c))
 	if vf == Unsat {
 		s.addPC(c)
+		s.model = mt
 		e.jump(s, fr, fr.Block.Succs[0])
 		return nil
 	}
 	ns := s.clone()
+	s.model, ns.model = mt, mf
 	e.mu.Lock()
 	e.stateCtr++
 	ns.ID = e.stateCtr
+	e.ForkSites["if "+e.where(s)]++
 	e.mu.Unlock()
 	s.Forks++
 	ns.Forks++
